@@ -1156,14 +1156,14 @@ Qed.
 
 Definition lit_tgt (names : list N) (d : fdef) : sfld :=
   {| sprio := fprio d; sval := option_map (SLeaf names) (fbody d);
-     sctrs := map (fun kc => (fst kc, SLeaf names (snd kc))) (fctrs d) |}.
+     sctrs := map (fun kc => (fst kc, SLeaf names (STm (snd kc)))) (fctrs d) |}.
 
 (* what the allocation of a thunk for a term [t] of the literal needs to know about the dependencies
    [dop] of its field: known and exact on the variables of [t], or unknown with [t] closed *)
-Definition leaf_ok (names : list N) (dop : option (list N)) (t : tm) : Prop :=
+Definition leaf_ok (names : list N) (dop : option (list N)) (t : src) : Prop :=
   match dop with
-  | Some deps => u = false /\ incl deps names /\ (forall x, In x (vars t) -> mem x deps = mem x names)
-  | None => u = true /\ incl (vars t) names
+  | Some deps => u = false /\ incl deps names /\ (forall x, In x (svars t) -> mem x deps = mem x names)
+  | None => u = true /\ incl (svars t) names
   end.
 
 Lemma mk_thunk_leaf : forall n0 names tid t dop,
@@ -1182,10 +1182,10 @@ Qed.
 
 Lemma alloc_ctrs_ok : forall n0 names dop cs ths0 e ths' r,
   n0 = length ths0 ->
-  (forall kc, In kc cs -> leaf_ok names dop (snd kc)) ->
+  (forall kc, In kc cs -> leaf_ok names dop (STm (snd kc))) ->
   alloc_ctrs dop (ths0 ++ e) cs = (ths', r) ->
   exists e', ths' = (ths0 ++ e) ++ e' /\
-             ctrs_ok n0 names ths' r (map (fun kc => (fst kc, SLeaf names (snd kc))) cs) /\
+             ctrs_ok n0 names ths' r (map (fun kc => (fst kc, SLeaf names (STm (snd kc)))) cs) /\
              fresh_seq n0 (length (ths0 ++ e)) (length ths') (map snd r).
 Proof.
   intros n0 names dop. induction cs as [|[k t] cs IH]; intros ths0 e ths' r Hn0 Hv Ha; cbn [alloc_ctrs] in Ha.
@@ -1196,7 +1196,7 @@ Proof.
     exists ([ctr_thunk dop t] ++ e2). split; [rewrite !app_assoc; reflexivity|]. split.
     + cbn [map fst snd]. constructor; [|exact Hc]. split; [reflexivity|]. cbn [snd].
       assert (Hlt : n0 <= length (ths0 ++ e)) by (subst n0; rewrite app_length; lia).
-      destruct (mk_thunk_leaf n0 names (length (ths0 ++ e)) t dop Hlt (Hv (k, t) (or_introl eq_refl))) as [Hp Hs].
+      destruct (mk_thunk_leaf n0 names (length (ths0 ++ e)) (STm t) dop Hlt (Hv (k, t) (or_introl eq_refl))) as [Hp Hs].
       exists (ctr_thunk dop t). split; [|split; [exact Hp | exact Hs]].
       rewrite <- !app_assoc. rewrite (app_assoc ths0 e). rewrite nth_error_app2 by lia. rewrite Nat.sub_diag. reflexivity.
     + cbn [map snd]. change (length (ths0 ++ e) :: map snd r1) with ([length (ths0 ++ e)] ++ map snd r1).
@@ -1206,7 +1206,7 @@ Qed.
 
 (* a literal all of whose bodies and contracts mention statically named fields of the literal only *)
 Definition fdef_closed (scope : list N) (d : fdef) : Prop :=
-  (forall t, fbody d = Some t -> incl (vars t) scope) /\
+  (forall t, fbody d = Some t -> incl (svars t) scope) /\
   (forall kc, In kc (fctrs d) -> incl (vars (snd kc)) scope).
 
 Definition lit_closed (l : literal) : Prop := forall k d, In (k, d) l -> fdef_closed (lit_scope l) d.
@@ -1221,23 +1221,23 @@ Proof.
   intros c names ths0 e d ths' f' (Hu & _ & _ & _ & Han) Hcl Ha. unfold alloc_fld in Ha.
   set (dop := field_deps c names d) in *.
   assert (Hleaf : (forall t, fbody d = Some t -> leaf_ok names dop t) /\
-                  (forall kc, In kc (fctrs d) -> leaf_ok names dop (snd kc))).
+                  (forall kc, In kc (fctrs d) -> leaf_ok names dop (STm (snd kc)))).
   { unfold dop, field_deps. rewrite Hu. destruct u eqn:Eu; cbn [leaf_ok].
     - destruct (Hcl eq_refl) as [Hb Hc]. split.
       + intros t Hbt. split; [exact Eu | apply Hb; exact Hbt].
       + intros kc Hkc. split; [exact Eu | apply Hc; exact Hkc].
     - specialize (Han eq_refl).
       set (deps := filter (fun x => mem x names)
-                     (flat_map (fun kc => c_an c (snd kc)) (fctrs d) ++ match fbody d with Some t => c_an c t | None => [] end)).
+                     (flat_map (fun kc => c_an c (STm (snd kc))) (fctrs d) ++ match fbody d with Some t => c_an c t | None => [] end)).
       assert (Hinc : incl deps names).
       { intros x Hx. unfold deps in Hx. apply filter_In in Hx. apply mem_In. tauto. }
       split.
       + intros t Hb. split; [exact Eu|]. split; [exact Hinc|]. intros x Hx. unfold deps. rewrite mem_filter, Hb.
-        assert (Hm : mem x (flat_map (fun kc => c_an c (snd kc)) (fctrs d) ++ c_an c t) = true).
+        assert (Hm : mem x (flat_map (fun kc => c_an c (STm (snd kc))) (fctrs d) ++ c_an c t) = true).
         { apply mem_In. apply in_or_app. right. apply Han. exact Hx. }
         rewrite Hm. reflexivity.
       + intros kc Hkc. split; [exact Eu|]. split; [exact Hinc|]. intros x Hx. unfold deps. rewrite mem_filter.
-        assert (Hm : mem x (flat_map (fun kc => c_an c (snd kc)) (fctrs d) ++ match fbody d with Some t => c_an c t | None => [] end) = true).
+        assert (Hm : mem x (flat_map (fun kc => c_an c (STm (snd kc))) (fctrs d) ++ match fbody d with Some t => c_an c t | None => [] end) = true).
         { apply mem_In. apply in_or_app. left. apply in_flat_map. exists kc. split; [exact Hkc | apply Han; exact Hx]. }
         rewrite Hm. reflexivity. }
   destruct Hleaf as [Hval Hctr].
@@ -1251,7 +1251,7 @@ Proof.
       * rewrite <- !app_assoc. rewrite (app_assoc ths0 e). rewrite nth_error_app2 by lia. rewrite Nat.sub_diag. reflexivity.
       * assert (Hlt : length ths0 <= length (ths0 ++ e)) by (rewrite app_length; lia).
         destruct (mk_thunk_leaf (length ths0) names (length (ths0 ++ e)) t dop Hlt (Hval t eq_refl)) as [Hp Hs].
-        unfold lit_thunk. destruct t as [z|x|a b|a b|a b t0 e0]; try (split; [exact Hp | exact Hs]).
+        unfold lit_thunk. destruct t as [[z|x|o|a b|a b|a b t0 e0]|l0]; try (split; [exact Hp | exact Hs]).
         split; [split; [exact I | intros _ x []]|]. cbn [abs_thunk abs_body]. constructor. intros x [].
     + unfold ftids. cbn [ival ictrs].
       assert (H1 : fresh_seq (length ths0) (length (ths0 ++ e)) (S (length (ths0 ++ e))) [length (ths0 ++ e)])
